@@ -406,6 +406,13 @@ FUNCS = [
      "bind": {"self.buffer.is_empty()": "s.buf.isEmpty", "self.cluster.is_idle()": "s.cl.isIdle",
               "self.scheduler.is_idle()": "s.queue.isEmpty", "self.instrument.is_idle()": "s.telIsIdle"},
      "props": ["C19", "C04", "C05"]},
+    # ---- C14: the plan's predecessor / successor queries read the (never pruned) plan graph
+    {"name": "planPredecessors", "file": "topsim/core/planner.py", "cls": "WorkflowPlan", "func": "get_task_predecessors",
+     "mode": "func", "sig": "(plan : Plan) (task_id : Tid) : List Tid", "params_py": ["task_id"],
+     "bind": {"self.graph.predecessors(task_id)": "plan.preds task_id"}, "props": ["C14"]},
+    {"name": "planSuccessors", "file": "topsim/core/planner.py", "cls": "WorkflowPlan", "func": "get_task_successors",
+     "mode": "func", "sig": "(plan : Plan) (task_id : Tid) : List Tid", "params_py": ["task_id"],
+     "bind": {"self.graph.successors(task_id)": "plan.succs task_id"}, "props": ["C14"]},
     {"name": "bufferIsEmpty", "file": "topsim/core/buffer.py", "cls": "Buffer", "func": "is_empty",
      "mode": "func", "sig": "(b : Buffer) : Bool",
      # the configuration parser builds exactly one hot and one cold tier ({0: hot}, {0: cold})
